@@ -25,7 +25,7 @@ MCAUSE = {"stop": "CStop", "drain": "CStop", "pserr": "CStop", "pspanic": "CStop
           # post_stop; the start task (spawn_instant) aborted during pre_start = the guard without an event
           "abort0": "CAbort", "abortidle": "CAbort", "aborthandler": "CAbort", "abortps": "CAbortPs",
           "abortstart": "CPreStartFail"}
-NOSUP = ("prefail", "prepanic", "prekill", "abortstart")     # spawn_instant: no supervisor
+NOSUP = ()     # (pre_start causes use spawn_instant, or spawn_linked_instant when there is a supervisor)
 KILLPARK = ("stopkill", "abortps")                           # post_stop parked, ended by kill / abort
 STOPLIKE = ("stop", "pserr", "pspanic", "stopkill", "abortps")
 PARKABLE = ("stop", "drain", "pserr", "pspanic", "stopkill", "abortps")
@@ -58,6 +58,7 @@ def translate(scn):
     hops, mops, ws = [], [], []
     idmap = {}          # harness waiter id -> model waiter index
     expect_err = set()  # harness waiter ids whose send part fails
+    helpers = set()     # harness waiter ids that are the supervisor's *_children_and_wait helpers
     short = []          # model indices of short-timeout waiters, in start order
     phase = "before"
     stop_sent = False
@@ -86,9 +87,19 @@ def translate(scn):
             _, kind, tmo, role = op
             hid = nid
             nid += 1
-            hops.append(f"w {hid} {kind} {tmo}")
+            hops.append(f"w {hid} {kind} {tmo}" + {"cause": " c", "release": " r"}.get(role, ""))
             enters = True
             pre, post = [], []
+            if kind in ("sc", "dc"):
+                # the supervisor's stop_children_and_wait / drain_children_and_wait = stop_and_wait /
+                # drain_and_wait on the actor whose result is swallowed
+                helpers.add(hid)
+                kind = "stopw" if kind == "sc" else "drainw"
+                if phase == "after":
+                    # the actor has unlinked itself from its supervisor: the helper finds no child and
+                    # does nothing at all
+                    kind = "noop"
+                    enters = False
             if kind == "stopw":
                 if stop_sent or not ports_alive:
                     enters = False
@@ -158,12 +169,13 @@ def translate(scn):
         else:
             raise ValueError(op)
     kinds = kid_kinds(scn["kids"])
-    line = (f"wait cause={cause} sup={1 if sup else 0} kids={','.join(kinds)} park={1 if park else 0} ; "
+    line = (f"wait cause={cause} sup={1 if sup else 0} kids={','.join(kinds)} park={1 if park else 0}"
+            + (" tl=1" if scn.get("tl") else "") + (" via=children" if scn.get("via") == "children" else "") + " ; "
             + " ; ".join(hops))
     s0 = "Starting" if cause in STARTING else "Running"
     ks = "[" + "; ".join(KID_STATUS[k] for k in kinds) + "]"
     args = f"{s0} [{'; '.join(ws)}] {mc} {'true' if sup else 'false'} {ks} [{'; '.join(mops)}]"
-    return {"line": line, "args": args, "idmap": idmap, "expect_err": expect_err, "mc": mc,
+    return {"line": line, "args": args, "idmap": idmap, "expect_err": expect_err, "helpers": helpers, "mc": mc,
             "sup": sup, "n_model_waiters": len(ws)}
 
 
@@ -180,10 +192,12 @@ def gen_scenario(rng):
         if not join_used[0]:
             kinds.append("join")
         if phase == "during":
-            kinds += ["drainw", "stopw"]
+            kinds += ["drainw", "stopw"] + (["sc", "dc"] if sup else [])
         if phase == "after":
-            kinds += ["stopw", "killw", "drainw", "wait"]
+            kinds += ["stopw", "killw", "drainw", "wait"] + (["sc", "dc"] if sup else [])
         kind = rng.choice(kinds)
+        if kind in ("sc", "dc") and tmo == "short":
+            tmo = "long"                # the helpers swallow the timeout: no way to tell it from a return
         if kind == "join":
             join_used[0] = True
         if kind in ("join", "inline"):
@@ -195,11 +209,17 @@ def gen_scenario(rng):
         ops.append(waiter("before"))
         if rng.random() < 0.15 and cause != "abort0":     # (nothing may yield before the abort)
             ops.append(["a"])
-    # the cause, delivered by a plain call or by a *_and_wait waiter
+    # the cause, delivered by a plain call, by a *_and_wait waiter or by the supervisor's helper
     if cause in STOPLIKE and rng.random() < 0.4:
-        ops.append(["w", "stopw", rng.choice(["none", "long", "short"]), "cause"])
+        if sup and rng.random() < 0.35:
+            ops.append(["w", "sc", rng.choice(["none", "long"]), "cause"])
+        else:
+            ops.append(["w", "stopw", rng.choice(["none", "long", "short"]), "cause"])
     elif cause == "drain" and rng.random() < 0.5:
-        ops.append(["w", "drainw", rng.choice(["none", "long", "short"]), "cause"])
+        if sup and rng.random() < 0.35:
+            ops.append(["w", "dc", rng.choice(["none", "long"]), "cause"])
+        else:
+            ops.append(["w", "drainw", rng.choice(["none", "long", "short"]), "cause"])
     elif cause in KILLLIKE and rng.random() < 0.5:
         ops.append(["w", "killw", rng.choice(["none", "long", "short"]), "cause"])
     else:
@@ -244,7 +264,12 @@ def gen_scenario(rng):
     kids = [rng.choice(["run", "busy", "drain", "drain", "stopping"]) for _ in range(rng.choice([1, 1, 2, 3]))]
     if cause == "abort0":
         kids = ["run"] * len(kids)      # setting up the other kinds needs a yield
-    return {"cause": cause, "sup": sup, "kids": kids, "park": park, "ops": ops}
+    scn = {"cause": cause, "sup": sup, "kids": kids, "park": park, "ops": ops}
+    if not cause.startswith("abort") and rng.random() < 0.15:
+        scn["tl"] = True                # a thread-local actor (own OS thread and runtime)
+    if sup and cause in STOPLIKE + ("drain",) and ["x"] in ops and rng.random() < 0.35:
+        scn["via"] = "children"         # delivered by the supervisor's stop_children() / drain_children()
+    return scn
 
 
 def exhaustive_small():
@@ -391,6 +416,43 @@ def exhaustive_kids():
     return out
 
 
+def exhaustive_audit():
+    """coverage-audit families: (a) a thread-local actor, every non-abort cause x supervisor, waiters
+    (task, inline, join handle) before / during / after; (b) the supervisor's stop_children(),
+    drain_children(), stop_children_and_wait(), drain_children_and_wait() as cause, during post_stop, late"""
+    out = []
+    for cause in CAUSES:
+        if cause.startswith("abort"):
+            continue
+        for sup in ((False,) if cause in NOSUP else (False, True)):
+            park = cause in PARKABLE
+            ops = [["w", "wait", "none", ""], ["w", "inline", "none", ""], ["x"]]
+            if park:
+                ops += [["w", "wait", "long", ""], ["w", "join", "none", ""], ["w", "inline", "none", ""]]
+                ops.append(["k", "release"] if cause in KILLPARK else ["g"])
+            ops += [["w", "wait", "none", ""], ["w", "stopw", "none", ""]]
+            out.append({"cause": cause, "sup": sup, "kids": ["drain"], "park": park, "ops": ops, "tl": True})
+    for cause in STOPLIKE + ("drain",):
+        for park in ((True,) if cause in KILLPARK else (False, True)):
+            rel = [["k", "release"]] if cause in KILLPARK else ([["g"]] if park else [])
+            helper = "dc" if cause == "drain" else "sc"
+            for tl in (False, True):
+                if tl and cause.startswith("abort"):
+                    continue
+                base = {"cause": cause, "sup": True, "kids": ["run"], "park": park}
+                if tl:
+                    base["tl"] = True
+                # delivered by stop_children()/drain_children(); helpers during and after
+                during = [["w", "sc", "none", ""], ["w", "dc", "long", ""]] if park else []
+                out.append(dict(base, via="children", ops=[["w", "wait", "none", ""], ["x"]] + during + rel
+                                + [["w", "sc", "none", ""], ["w", "dc", "none", ""]]))
+                # delivered by the *_children_and_wait helper itself
+                out.append(dict(base, ops=[["w", "inline", "none", ""], ["w", helper, "none", "cause"]]
+                                + ([["w", "dc" if helper == "sc" else "sc", "long", ""]] if park else []) + rel
+                                + [["w", "wait", "none", ""]]))
+    return out
+
+
 def obs_view(term, idmap=None):
     """list of mkObs terms -> {waiter: (outcome, snapshot tuple)}"""
     d = {}
@@ -445,6 +507,7 @@ def run(chk):
     scns += [("exhaustive", s) for s in ex]
     if not (scns and scns[0][0] == "replay"):
         scns += [("exhaustive-kids", s) for s in exhaustive_kids()]
+        scns += [("exhaustive-audit", s) for s in exhaustive_audit()]
     n_rand = 0 if scns and scns[0][0] == "replay" else (1500 if quick else 12000) * factor
     scns += [("random", gen_scenario(chk.rng)) for _ in range(n_rand)]
 
@@ -456,7 +519,11 @@ def run(chk):
     for t, it in zip(tr, impl_t):
         a = t["args"]
         sup = "true" if t["sup"] else "false"
-        iobs, ists = show_term(it[1]), show_term(it[2])
+        # a *_children_and_wait helper whose send part fails swallowed Err(Messaging): it did not wait,
+        # no claim is made about its return (same status as an Err from stop_and_wait itself)
+        noclaim = t["helpers"] & t["expect_err"]
+        obs_for_oracle = [(o[0], o[1], "OErr", o[3]) if (o[1] in noclaim and o[2] == "ORet") else o for o in it[1]]
+        iobs, ists = show_term(obs_for_oracle), show_term(it[2])
         last = it[2][-1] if it[2] else ("Starting" if "Starting" in a.split()[0] else "Running")
         exprs.append(f"(run_scenario {a}, scenario_statuses {a}, scenario_complete {a}, "
                      f"check_C06 (want_ps_of {t['mc']}) (want_sup_of {t['mc']} {sup}) (scenario_complete {a}) {iobs} "
@@ -476,6 +543,8 @@ def run(chk):
         errs = set()
         for w, l in obs_view(i_obs).items():
             for out, snap in l:
+                if w in t["helpers"] and w in t["expect_err"] and out == "ORet":
+                    out = "OErr"    # the helper swallowed Err(Messaging): it did not wait, no claim
                 if out == "OErr":
                     errs.add(w)
                 else:
@@ -483,6 +552,10 @@ def run(chk):
         mv = obs_view(m_obs)
         n_before = sum(1 for o in scn["ops"] if o[0] == "w")
         chk.count("cause." + scn["cause"])
+        if scn.get("tl"):
+            chk.count("thread_local_actor")
+        if scn.get("via"):
+            chk.count("via." + scn["via"])
         for kk in kid_kinds(scn["kids"]):
             chk.count("kid." + kk)
         chk.count("source." + src.split(":")[0])
